@@ -49,6 +49,8 @@ type PeerActor struct {
 	Addr     *net.UDPAddr
 	sock     *UDPSock
 	Received []RecvRec
+	ln       *TCPListener
+	Conns    []*peerConn
 }
 
 // SimRelayGen is the harness relay address generator: relay sockets/listeners on simnet.
@@ -338,6 +340,9 @@ func (w *SrvWorld) Start() {
 			p.Received = append(p.Received, RecvRec{T: w.K.Now(), Kind: "dgram", From: ustr(d.From), Data: d.Payload})
 		}
 		p.sock = s
+		if w.P.Cfg.Extra["tcp_peers"] == 1 {
+			p.startTCP()
+		}
 	}
 }
 
@@ -491,7 +496,9 @@ func (w *SrvWorld) exec(op *Op) {
 			}
 			w.Net.SendUDP(src, dst, payload)
 		default:
-			Fatalf("peer op %q", op.Kind)
+			if !p.doTCPOp(op) {
+				Fatalf("peer op %q", op.Kind)
+			}
 		}
 		return
 	}
@@ -544,7 +551,26 @@ func (w *SrvWorld) afterServerClose() {
 				Detail: "socket " + s.Kind + " " + s.Role + " " + s.Addr + " remote " + s.Remote + " is still open 5 s after Server.Close returned"})
 		}
 	}
+	w.checkStreams()
 	// close every harness-owned endpoint so that only library leaks remain
+	for _, p := range w.Peers {
+		if p.ln != nil {
+			pl := p.ln
+			w.lib("close-peer", func() { _ = pl.Close() })
+		}
+		for _, pc := range p.Conns {
+			if !pc.Closed {
+				_ = pc.Conn.closeHow(false)
+			}
+		}
+	}
+	for _, c := range w.Clients {
+		for _, d := range c.Data {
+			if d.Up && !d.Closed {
+				_ = d.Conn.closeHow(false)
+			}
+		}
+	}
 	for _, c := range w.Clients {
 		if c.sock != nil {
 			c.sock.Handler = nil
@@ -624,11 +650,25 @@ func (w *SrvWorld) Run(maxSteps int) string {
 
 // libGoroutines counts goroutines that still have pion/turn frames (leak oracle).
 func libGoroutines() (int, string) {
+	// only goroutines of the current bubble count: an earlier run of this process that was
+	// cut short may have left its own behind
+	me := make([]byte, 256)
+	me = me[:runtime.Stack(me, false)]
+	bubble := ""
+	if i := strings.Index(string(me), "synctest bubble "); i >= 0 {
+		j := strings.IndexAny(string(me[i:]), "]\n")
+		if j > 0 {
+			bubble = string(me[i : i+j])
+		}
+	}
 	buf := make([]byte, 1<<20)
 	n := runtime.Stack(buf, true)
 	cnt := 0
 	var first string
 	for _, g := range strings.Split(string(buf[:n]), "\n\n") {
+		if bubble != "" && !strings.Contains(g[:minInt(len(g), 160)], bubble+"]") {
+			continue
+		}
 		if strings.Contains(g, "github.com/pion/turn/v5.") || strings.Contains(g, "github.com/pion/turn/v5/internal/") {
 			if strings.Contains(g, "verifsim") && !strings.Contains(g, "pion/turn/v5/internal/") && !strings.Contains(g, "pion/turn/v5.(") {
 				continue
@@ -640,6 +680,13 @@ func libGoroutines() (int, string) {
 		}
 	}
 	return cnt, first
+}
+
+func minInt(a, b int) int {
+	if a < b {
+		return a
+	}
+	return b
 }
 
 func (w *SrvWorld) execExtra(op *Op) { Fatalf("unknown op kind %q for actor %q", op.Kind, op.Actor) }
